@@ -466,3 +466,87 @@ class Engine:
 
 def content_hash(*parts):
     return hashlib.sha256(repr(parts).encode()).hexdigest()[:16]
+
+
+def _bump(ver, ch, kind):
+    d, i, b = ver
+    k = ch.choose(kind, 3)
+    return (d, i, b + 1) if k == 0 else ((d, i + 1, 0) if k == 1 else (d + 1, 0, 0))
+
+
+def evolve(ch, spec, max_total=8, graph_edits=True):
+    """a software update: a new Spec with some versions bumped and, optionally, the
+    declared inputs edited or an algorithm added (names of existing things never change)"""
+    new = Spec.from_json(spec.to_json())
+    algs = new.algs
+    nedit = 1 + ch.choose('evo.nedit', 3)
+    log = []
+    for _ in range(nedit):
+        kinds = ['alg', 'sv', 'val', 'none']
+        if graph_edits:
+            kinds += ['add_input', 'del_input', 'add_alg']
+        k = kinds[ch.choose('evo.kind', len(kinds))]
+        a = algs[ch.choose('evo.alg', len(algs))]
+        if k == 'alg':
+            a.ver = _bump(a.ver, ch, 'evo.bump')
+            log.append(f'{a.full} -> {a.ver}')
+        elif k == 'sv':
+            i = ch.choose('evo.sv', len(a.svs))
+            s, v, vals = a.svs[i]
+            a.svs[i] = (s, _bump(v, ch, 'evo.bump'), vals)
+            log.append(f'{a.full}.{s} -> {a.svs[i][1]}')
+        elif k == 'val':
+            i = ch.choose('evo.sv', len(a.svs))
+            s, v, vals = a.svs[i]
+            j = ch.choose('evo.val', len(vals))
+            vals = list(vals)
+            vals[j] = (vals[j][0], _bump(vals[j][1], ch, 'evo.bump'))
+            a.svs[i] = (s, v, vals)
+            log.append(f'{a.full}.{s}.{vals[j][0]} -> {vals[j][1]}')
+        elif k == 'add_input':
+            pos = algs.index(a)
+            if pos > 0:
+                y = algs[ch.choose('evo.inalg', pos)]
+                ysv = y.svs[ch.choose('evo.insv', len(y.svs))]
+                lvl = ch.choose('evo.inlevel', 3)
+                ref = ((y.full, 'alg', None, None) if lvl == 0 else (y.full, 'sv', ysv[0], None) if lvl == 1
+                       else (y.full, 'val', ysv[0], ysv[2][ch.choose('evo.inval', len(ysv[2]))][0]))
+                if ref not in a.inputs:
+                    a.inputs.append(ref)
+                    log.append(f'{a.full} += input {ref}')
+        elif k == 'del_input':
+            if a.inputs:
+                r = a.inputs.pop(ch.choose('evo.delin', len(a.inputs)))
+                log.append(f'{a.full} -= input {r}')
+        elif k == 'add_alg' and len(algs) < max_total:
+            pkg = new.pkgs[ch.choose('evo.pkg', len(new.pkgs))]
+            used = {x.name for x in algs if x.pkg == pkg}
+            pool = [n for n in ALG_NAMES if n not in used]
+            if pool:
+                kind = KINDS[ch.choose('evo.newkind', len(KINDS))]
+                y = algs[ch.choose('evo.inalg', len(algs))]
+                ysv = y.svs[0]
+                na = AlgSpec(pkg, pool[ch.choose('evo.newname', len(pool))], kind, (1, 0, 0),
+                             [('sv', (1, 0, 0), [('v', (1, 0, 0))])], [(y.full, 'sv', ysv[0], None)])
+                algs.append(na)
+                log.append(f'new algorithm {na.full}[{kind[0]}]({y.full}.{ysv[0]})')
+    out = Spec(algs, new.events, new.base)
+    out.change_log = log
+    return out
+
+
+def unrecorded(spec, versions):
+    """reference for C15: algorithms whose own version, or that of any of their state vectors or
+    values, is not among the persisted versions (`versions` = what dawgie.db.versions() returned)"""
+    _t, av, sv, vv = versions
+    out = set()
+    for a in spec.algs:
+        s = lambda v: '.'.join(str(x) for x in v)  # noqa: E731
+        miss = s(a.ver) not in av.get(a.full, [])
+        for svn, svver, vals in a.svs:
+            miss = miss or s(svver) not in sv.get(f'{a.full}.{svn}', [])
+            for vn, vver in vals:
+                miss = miss or s(vver) not in vv.get(f'{a.full}.{svn}.{vn}', [])
+        if miss:
+            out.add(a.full)
+    return out
